@@ -91,6 +91,14 @@ class ShuffleBase(Expr):
     def _node_label_args(self):
         return [self.frame, self.partitioning_index]
 
+    def _filter_passthrough_available(self, parent, dependents):
+        if isinstance(self.partitioning_index, Expr):
+            # The key is a collection that is aligned with the frame row by
+            # row; filtering only the frame would pair the remaining rows
+            # with the keys of other rows
+            return False
+        return super()._filter_passthrough_available(parent, dependents)
+
     def _simplify_up(self, parent, dependents):
         if isinstance(parent, Filter) and self._filter_passthrough_available(
             parent, dependents
@@ -104,6 +112,10 @@ class ShuffleBase(Expr):
             partitioning_index = self.partitioning_index
             if isinstance(partitioning_index, (str, int)):
                 partitioning_index = [partitioning_index]
+            elif not isinstance(partitioning_index, (list, tuple)):
+                # shuffled on the index or on a separate collection: no
+                # column of the frame has to be kept for it
+                partitioning_index = []
 
             target = self.frame
             new_projection = [
